@@ -17,6 +17,8 @@ import (
 	"encoding/json"
 	"encoding/pem"
 	"fmt"
+	"io"
+	"log"
 	"net/http"
 	"net/http/httptest"
 	"os"
@@ -74,12 +76,15 @@ func sharedRSA() *rsa.PrivateKey {
 	return rsaKey
 }
 
-func hooks(base, path, kind string, n int) []*provisioner.Webhook {
+// hookSecret is the webhooks' signing secret; a case with Var "badhook" configures one that is
+// not base64, which DoWithContext rejects before any attempt.
+var hookSecretOK = base64.StdEncoding.EncodeToString([]byte("secret"))
+
+func hooks(base, path, kind string, n int, secret string) []*provisioner.Webhook {
 	var whs []*provisioner.Webhook
 	for i := 0; i < n; i++ {
 		whs = append(whs, &provisioner.Webhook{ID: fmt.Sprintf("%s%d", path, i), Name: fmt.Sprintf("%s%d", path, i),
-			URL: fmt.Sprintf("%s/%s/%d", base, path, i), Kind: kind, CertType: "ALL",
-			Secret: base64.StdEncoding.EncodeToString([]byte("secret"))})
+			URL: fmt.Sprintf("%s/%s/%d", base, path, i), Kind: kind, CertType: "ALL", Secret: secret})
 	}
 	return whs
 }
@@ -87,10 +92,22 @@ func hooks(base, path, kind string, n int) []*provisioner.Webhook {
 func newEnv(k *Case) (*Env, error) {
 	e := &Env{rec: &Recorder{}, extra: map[string]any{}}
 	e.srv = webhookServer()
-	whs := append(hooks(e.srv.URL, "enrich", "ENRICHING", k.E), hooks(e.srv.URL, "authorize", "AUTHORIZING", k.A)...)
+	secret := hookSecretOK
+	if k.Var == "badhook" {
+		secret = "%%% not base64 %%%"
+	}
+	whs := append(hooks(e.srv.URL, "enrich", "ENRICHING", k.E, secret), hooks(e.srv.URL, "authorize", "AUTHORIZING", k.A, secret)...)
 	closed, release := closedAddr()
 	e.closer = append(e.closer, release)
-	tr := &faultTransport{rec: e.rec, base: &http.Transport{DisableKeepAlives: true}, closed: closed}
+	// an https endpoint whose certificate the webhook client does not trust
+	tlsSrv := httptest.NewUnstartedServer(http.HandlerFunc(func(w http.ResponseWriter, r *http.Request) {
+		w.Write([]byte(`{"allow":true}`))
+	}))
+	tlsSrv.Config.ErrorLog = log.New(io.Discard, "", 0) // the failed handshakes are the point
+	tlsSrv.StartTLS()
+	e.closer = append(e.closer, tlsSrv.Close)
+	tr := &faultTransport{rec: e.rec, base: &http.Transport{DisableKeepAlives: true}, closed: closed,
+		untrusted: strings.TrimPrefix(tlsSrv.URL, "https://")}
 
 	// key material is made here (not by the fixture) so that the CAS can be wrapped and, for
 	// SCEP, the intermediate key is an RSA key the SCEP authority can decrypt with
@@ -131,8 +148,8 @@ func newEnv(k *Case) (*Env, error) {
 			Challenges: []provisioner.ACMEChallenge{provisioner.HTTP_01}},
 	}
 	if k.Op == "scep" {
-		all := append(append([]*provisioner.Webhook{}, whs...), hooks(e.srv.URL, "challenge", "SCEPCHALLENGE", k.CH)...)
-		all = append(all, hooks(e.srv.URL, "notify", "NOTIFYING", k.N)...)
+		all := append(append([]*provisioner.Webhook{}, whs...), hooks(e.srv.URL, "challenge", "SCEPCHALLENGE", k.CH, secret)...)
+		all = append(all, hooks(e.srv.URL, "notify", "NOTIFYING", k.N, secret)...)
 		sp := &provisioner.SCEP{Type: "SCEP", Name: "scep", MinimumPublicKeyLength: 2048, EncryptionAlgorithmIdentifier: 2,
 			Options: &provisioner.Options{Webhooks: all}}
 		if k.CH == 0 {
@@ -306,6 +323,10 @@ func (e *Env) recorded(hs []handed) int {
 
 // ---- prerequisites (run with the recorder off)
 
+// ahead is how far in the future tokens are issued (within the validators' one-minute leeway):
+// a replay after a restart of the authority is then judged by the token record alone.
+const ahead = 55 * time.Second
+
 func (e *Env) issueX509(cn string) (*x509.Certificate, crypto.Signer, error) {
 	tok, err := e.ca.Token(fixture.TokenOpts{Subject: cn})
 	if err != nil {
@@ -323,7 +344,7 @@ func (e *Env) issueX509(cn string) (*x509.Certificate, crypto.Signer, error) {
 }
 
 func sshToken(e *Env, typ, keyID string, principals []string, key *jose.JSONWebKey) (string, error) {
-	return e.ca.Token(fixture.TokenOpts{Subject: keyID, Audience: fixture.Audience("/1.0/ssh/sign"), NoSANs: true, Key: key,
+	return e.ca.Token(fixture.TokenOpts{Subject: keyID, Audience: fixture.Audience("/1.0/ssh/sign"), NoSANs: true, Key: key, IssuedAt: time.Now().Add(ahead),
 		Extra: map[string]any{"step": map[string]any{"ssh": map[string]any{"certType": typ, "keyID": keyID, "principals": principals}}}})
 }
 
@@ -359,7 +380,7 @@ func sshpopToken(crt *ssh.Certificate, priv *ecdsa.PrivateKey, aud string, sub s
 	now := time.Now()
 	jti, _ := randutil.Hex(32)
 	claims := map[string]any{"iss": "sshpop", "sub": sub, "aud": aud, "jti": jti,
-		"iat": now.Unix(), "nbf": now.Add(-time.Second).Unix(), "exp": now.Add(5 * time.Minute).Unix()}
+		"iat": now.Add(ahead).Unix(), "nbf": now.Add(-time.Second).Unix(), "exp": now.Add(5 * time.Minute).Unix()}
 	return jose.Signed(sig).Claims(claims).CompactSerialize()
 }
 
@@ -371,7 +392,7 @@ func (e *Env) prepare(k *Case) (*httpReq, error) {
 	const cn = "leaf.verif.test"
 	switch k.Op {
 	case "sign":
-		to := fixture.TokenOpts{Subject: cn}
+		to := fixture.TokenOpts{Subject: cn, IssuedAt: time.Now().Add(ahead)}
 		sans := []string{cn}
 		body := &api.SignRequest{}
 		switch k.Chk {
@@ -426,7 +447,7 @@ func (e *Env) prepare(k *Case) (*httpReq, error) {
 		if k.Op == "revokemtls" {
 			return &httpReq{h: api.Revoke, path: "/1.0/revoke", peer: crt, body: body}, nil
 		}
-		to := fixture.TokenOpts{Subject: serial, Audience: fixture.Audience("/1.0/revoke"), NoSANs: true}
+		to := fixture.TokenOpts{Subject: serial, Audience: fixture.Audience("/1.0/revoke"), NoSANs: true, IssuedAt: time.Now().Add(ahead)}
 		if k.Chk == 0 {
 			other, err := jose.GenerateJWK("EC", "P-256", "ES256", "sig", "", 0)
 			if err != nil {
@@ -499,7 +520,7 @@ func (e *Env) prepare(k *Case) (*httpReq, error) {
 		}
 		body := &api.SSHSignRequest{PublicKey: pub.Marshal(), CertType: "user", KeyID: user, Principals: []string{user},
 			AddUserPublicKey: addPub.Marshal(), IdentityCSR: api.NewCertificateRequest(idCSR)}
-		tok, err := e.ca.Token(fixture.TokenOpts{Subject: user, NoSANs: true,
+		tok, err := e.ca.Token(fixture.TokenOpts{Subject: user, NoSANs: true, IssuedAt: time.Now().Add(ahead),
 			Extra: map[string]any{"aud": []string{fixture.Audience("/1.0/ssh/sign"), fixture.Audience("/1.0/sign")},
 				"step": map[string]any{"ssh": map[string]any{"certType": "user", "keyID": user, "principals": []string{user}}}}})
 		if err != nil {
@@ -522,13 +543,19 @@ func (e *Env) prepare(k *Case) (*httpReq, error) {
 		}
 		serial := strconv.FormatUint(crt.Serial, 10)
 		e.extra["serial"] = serial
+		var peer *x509.Certificate
+		if k.Var == "identity" { // the request arrives over mTLS with the host's X.509 identity certificate
+			if peer, _, err = e.issueX509("host.verif.test"); err != nil {
+				return nil, err
+			}
+		}
 		switch k.Op {
 		case "sshrenew":
 			tok, err := sshpopToken(crt, signer, fixture.Audience("/1.0/ssh/renew")+"#sshpop/sshpop", "host.verif.test")
 			if err != nil {
 				return nil, err
 			}
-			return &httpReq{h: api.SSHRenew, path: "/1.0/ssh/renew", body: &api.SSHRenewRequest{OTT: tok}}, nil
+			return &httpReq{h: api.SSHRenew, path: "/1.0/ssh/renew", body: &api.SSHRenewRequest{OTT: tok}, peer: peer}, nil
 		case "sshrekey":
 			tok, err := sshpopToken(crt, signer, fixture.Audience("/1.0/ssh/rekey")+"#sshpop/sshpop", "host.verif.test")
 			if err != nil {
@@ -542,7 +569,7 @@ func (e *Env) prepare(k *Case) (*httpReq, error) {
 			if err != nil {
 				return nil, err
 			}
-			return &httpReq{h: api.SSHRekey, path: "/1.0/ssh/rekey", body: &api.SSHRekeyRequest{OTT: tok, PublicKey: npub.Marshal()}}, nil
+			return &httpReq{h: api.SSHRekey, path: "/1.0/ssh/rekey", body: &api.SSHRekeyRequest{OTT: tok, PublicKey: npub.Marshal()}, peer: peer}, nil
 		default:
 			tok, err := sshpopToken(crt, signer, fixture.Audience("/1.0/ssh/revoke")+"#sshpop/sshpop", serial)
 			if err != nil {
